@@ -66,7 +66,7 @@ func init() {
 		// ---- runtime ----
 		"runtime.SetFinalizer": extNop,
 		"runtime.KeepAlive":    extNop,
-		"runtime.Gosched":      func(fr *frame, a []value) value { fr.i.runPending(); return nil },
+		"runtime.Gosched":      func(fr *frame, a []value) value { fr.i.yield(); return nil },
 		"runtime.GC":           extNop,
 		"runtime.GOMAXPROCS":   func(fr *frame, a []value) value { return 16 },
 		"runtime.NumCPU":       func(fr *frame, a []value) value { return 16 },
@@ -96,7 +96,7 @@ func init() {
 
 		// ---- time ----
 		"time.Now":   extTimeNow,
-		"time.Sleep": extNop,
+		"time.Sleep": func(fr *frame, a []value) value { fr.i.yield(); return nil },
 		"time.now":   func(fr *frame, a []value) value { return tuple{int64(1_700_000_000), int32(0), int64(1_000_000)} },
 		"time.runtimeNano": func(fr *frame, a []value) value { return int64(1_000_000) },
 
@@ -128,14 +128,9 @@ func init() {
 		},
 		"(*sync.Pool).Get": extPoolGet,
 		"(*sync.Pool).Put": extNop,
-		"(*sync.Cond).Wait": func(fr *frame, a []value) value {
-			if !fr.i.runPending() {
-				panic(blockedError{"sync.Cond.Wait with nothing runnable"})
-			}
-			return nil
-		},
-		"(*sync.Cond).Signal":    extNop,
-		"(*sync.Cond).Broadcast": extNop,
+		"(*sync.Cond).Wait":      extCondWait,
+		"(*sync.Cond).Signal":    extCondSignal,
+		"(*sync.Cond).Broadcast": extCondSignal,
 
 		// ---- sync/atomic ----
 		"sync/atomic.LoadInt32":    extAtomicLoad,
@@ -558,11 +553,7 @@ func (i *interpreter) mutexState(p *value) *mutexState {
 
 func extMutexLock(fr *frame, a []value) value {
 	st := fr.i.mutexState(a[0].(*value))
-	for st.w || st.r > 0 {
-		if !fr.i.runPending() {
-			panic(blockedError{"Lock of a locked mutex (self-deadlock) at " + fr.caller.where()})
-		}
-	}
+	fr.i.yieldUntil(func() bool { return !st.w && st.r == 0 }, "Lock of a locked mutex (deadlock) at "+fr.caller.where())
 	st.w = true
 	return nil
 }
@@ -587,11 +578,7 @@ func extMutexTryLock(fr *frame, a []value) value {
 
 func extRLock(fr *frame, a []value) value {
 	st := fr.i.mutexState(a[0].(*value))
-	for st.w {
-		if !fr.i.runPending() {
-			panic(blockedError{"RLock of a write-locked mutex (self-deadlock) at " + fr.caller.where()})
-		}
-	}
+	fr.i.yieldUntil(func() bool { return !st.w }, "RLock of a write-locked mutex (deadlock) at "+fr.caller.where())
 	st.r++
 	return nil
 }
@@ -644,11 +631,7 @@ func extWGWait(fr *frame, a []value) value {
 	if !ok {
 		return nil
 	}
-	for st.n > 0 {
-		if !fr.i.runPending() {
-			panic(blockedError{"WaitGroup.Wait with nothing runnable"})
-		}
-	}
+	fr.i.yieldUntil(func() bool { return st.n <= 0 }, "WaitGroup.Wait with nothing runnable")
 	return nil
 }
 
@@ -666,6 +649,35 @@ func extPoolGet(fr *frame, a []value) value {
 		return iface{}
 	}
 	return call(fr.i, fr, token.NoPos, newFn, nil)
+}
+
+type condState struct{ gen int }
+
+func (i *interpreter) condState(p *value) *condState {
+	if st, ok := i.side[p].(*condState); ok {
+		return st
+	}
+	st := &condState{}
+	i.side[p] = st
+	return st
+}
+
+func extCondWait(fr *frame, a []value) value {
+	p := a[0].(*value)
+	st := fr.i.condState(p)
+	l := (*p).(structure)[1].(iface) // sync.Cond.L
+	unlock := fr.i.methodOf(l.t, "Unlock")
+	lock := fr.i.methodOf(l.t, "Lock")
+	call(fr.i, fr, token.NoPos, unlock, []value{l.v})
+	gen := st.gen
+	fr.i.yieldUntil(func() bool { return st.gen != gen }, "sync.Cond.Wait never signalled")
+	call(fr.i, fr, token.NoPos, lock, []value{l.v})
+	return nil
+}
+
+func extCondSignal(fr *frame, a []value) value {
+	fr.i.condState(a[0].(*value)).gen++
+	return nil
 }
 
 // ---- atomics ----
